@@ -37,7 +37,7 @@ func (w *c19Writer) Write(b []byte) (int, error) {
 type c19BadReader struct{}
 
 func (c19BadReader) Read([]byte) (int, error) { return 0, errors.New("verif: unreadable body") }
-func (c19BadReader) Close() error               { return nil }
+func (c19BadReader) Close() error             { return nil }
 
 type c19Doc struct {
 	Body     string
